@@ -17,6 +17,7 @@ pub mod c14;
 pub mod c27;
 pub mod c28;
 pub mod c32;
+pub mod c34;
 pub mod insp;
 pub mod c29 {
     pub use super::insp::{replay29 as replay, run29 as run};
@@ -56,5 +57,6 @@ pub fn dispatch(ctx: &Ctx, replay: Option<&str>) -> i32 {
         "C29" => c29,
         "C30" => c30,
         "C32" => c32,
+        "C34" => c34,
     )
 }
